@@ -159,6 +159,15 @@ def check_spaninfo(r, lexpr, thorough=False):
         r.ok("Clone for SpanInfo is derived: structural by construction", fn)
         r.note("derived impl: nothing to evaluate")
         return 0
+    si = lexpr.adts.get(SI) or {}
+    shape = {v["name"]: [f["ty"] for f in v["fields"]] for v in si.get("variants", [])}
+    if not (si.get("kind") == "enum" and set(shape) == {"Prim", "Cons", "Vec"} and len(shape["Prim"]) == 1
+            and len(shape["Cons"]) == 2 and "[datum::SpanInfo; 2]" in shape["Cons"][1] and len(shape["Vec"]) == 2):
+        # the chains this rule builds follow the representation Prim(span) | Cons(span, Box<[_; 2]>) | Vec(span, Vec<_>);
+        # under another private representation the rule has nothing to say (C16 still decides that the impl is iterative)
+        r.note("SpanInfo is represented differently (%s): clone fidelity is not evaluated on this tree" % sorted(shape.items()))
+        r.ok("SpanInfo's private representation is not the one this rule models; not evaluated", fn)
+        return 0
     ctr = [0]
 
     def nid():
